@@ -1477,6 +1477,7 @@ class Xsd11Element(XsdElement):
                 if e1.name == other.name:
                     break
             else:
+                e1 = self  # not one of its substitutes
                 for e2 in other.iter_substitutes():
                     if e2.name == self.name:
                         break
